@@ -251,7 +251,7 @@ def run_shard(ctx, shard):
         i += 1
     for idh, s, n, sq, i in cases[shard["part"]::shard["parts"]]:
         case = {"cfg": CONFIGS[i % 3] if i % 2 else "asm", "seed": seed, "idhash": idh.hex(), "s": "%x" % s, "len": n, "answers": ["%x" % v for v in sq], "default": "%x" % default,
-                "via_unmarshal": i % 2 == 0, "python": i % 40 == 0, "negatives": i % 3 == 0}
+                "via_unmarshal": i % 2 == 0, "python": i % 40 == 0, "negatives": True}
         msgs = eval_case(case)
         ctx.ok(True, "lq:%s%s" % ("stream-deviation" if sq else "product", ":identity-point" if idh == b"\x00" * 48 else ""))
         ctx.sample(case, limit=1)
